@@ -209,6 +209,20 @@ class EngineD:
             subs = [list(r) for r in sorted(rows)]
             g.shuffle(subs)
             return {"kind": kind, "shape": shape, "subs": subs, "vals": enc(np.array([gen_double(g) or 1.5 for _ in subs], dtype=float).reshape(-1, 1))}
+        if kind == "sptensor" and g.random() < 0.08:
+            # subscripts stored in a narrow integer type, reaching the largest value of that type
+            N = g.randint(1, 3)
+            tname = g.choice(["uint8", "int8", "uint16", "int16", "int32", "uint32"])
+            top = int(np.iinfo(tname).max)
+            shape = [g.choice([2, 3, 5]) for _ in range(N)]
+            j = g.randrange(N)
+            shape[j] = top + 1 + g.choice([0, 0, 3])
+            rows = set()
+            for _ in range(g.randint(1, 4)):
+                rows.add(tuple((top - g.choice([0, 0, 1, 2])) if d == j else g.randrange(shape[d]) for d in range(N)))
+            subs = [list(r) for r in sorted(rows)]
+            g.shuffle(subs)
+            return {"kind": kind, "shape": shape, "subs": subs, "subs_dtype": tname, "vals": enc(np.array([gen_double(g) or 1.5 for _ in subs], dtype=float).reshape(-1, 1))}
         if kind == "sptensor":
             N = g.randint(1, 4)
             shape = [g.choice([1, 2, 3, 4, 5]) for _ in range(N)]
@@ -224,6 +238,17 @@ class EngineD:
                     v = g.choice([0.0, -0.0])
                 vals.append(v if (v != 0 or stored_zeros) else 1.5)
             return {"kind": kind, "shape": shape, "subs": subs, "vals": enc(np.array(vals, dtype=float).reshape(-1, 1)), "stored_zeros": stored_zeros}
+        if kind == "ktensor" and g.random() < 0.03:
+            # very many components (a weights line of several hundred numbers)
+            N = g.randint(1, 3)
+            shape = [g.choice([1, 2]) for _ in range(N)]
+            r = g.choice([255, 256, 257, 300, 513, 700])
+            base = gen_double(g)
+            if not (abs(base) < 1e300):
+                base = 1.5
+            w = np.arange(r, dtype=float) * 0.001953125 + base
+            fs = [(np.arange(s * r, dtype=float) * 0.03125 + base * (d + 2)).reshape(s, r) for d, s in enumerate(shape)]
+            return {"kind": kind, "shape": shape, "weights": enc(w), "factors": [enc(f) for f in fs], "order": g.choice(["F", "C"])}
         if kind == "ktensor":
             N = g.randint(1, 4)
             shape = [g.choice([1, 2, 3, 4]) for _ in range(N)]
@@ -361,7 +386,7 @@ class EngineD:
             subs = np.array(obj["subs"], dtype=np.int64).reshape(len(obj["subs"]), len(shape))
             if not obj.get("stored_zeros"):
                 vals = np.where(vals == 0, 1.5, vals)
-            return ttb.sptensor(subs.copy(), vals.copy(), shape), {"kind": k, "shape": shape, "subs": subs, "vals": vals}
+            return ttb.sptensor(subs.astype(obj.get("subs_dtype", "int64")), vals.copy(), shape), {"kind": k, "shape": shape, "subs": subs, "vals": vals}
         if k == "ktensor":
             w = np.asarray(dec(obj["weights"]), dtype=float)
             fs = [np.asarray(dec(f), dtype=float) for f in obj["factors"]]
